@@ -174,7 +174,12 @@ def build_case(spec):
         return ProcessSequence(ps)
     params = {}
     for p in procs: params.update(p.get('params', {}))
-    return dict(sticky=spec.get('sticky', 0.0), strlabels=spec.get('strlabels', False), history=spec.get('history', []), fixed_proto=spec.get('fixed_proto', False), preattr=spec.get('preattr'), procs_json=procs, build=build, dyn=spec['dyn'], nodes=spec['nodes'], edges=[tuple(e) for e in spec['edges']], maxT=spec['maxT'],
+    pt = spec.get('ptypes')
+    if pt:      # the same values as Python ints (where integral) or numpy scalars: what a parameter sweep or a JSON file hands over
+        import numpy
+        params = {k: ((int(v) if pt == 'int' and float(v).is_integer() else numpy.float64(v) if pt == 'np' else v) if isinstance(v, float) else v)
+                  for k, v in params.items()}
+    return dict(prior_other=spec.get('prior_other'), sticky=spec.get('sticky', 0.0), strlabels=spec.get('strlabels', False), history=spec.get('history', []), fixed_proto=spec.get('fixed_proto', False), preattr=spec.get('preattr'), procs_json=procs, build=build, dyn=spec['dyn'], nodes=spec['nodes'], edges=[tuple(e) for e in spec['edges']], maxT=spec['maxT'],
                 seed=spec['seed'], params=params, specials=spec.get('specials', ()), pspecial=spec.get('pspecial', 0.0),
                 oracles=[ORACLES[o] for o in spec.get('oracles', [])], finals=[FINALS[o] for o in spec.get('oracles', []) if o in FINALS])
 
@@ -258,7 +263,8 @@ def gen_shipped(rnd, classes=None, dyn=None, oracles=('clock', 'member', 'loci')
     ps = sorted({v for k, v in params.items() if isinstance(v, float) and 0 < v < 1})
     return dict(procs=[dict(cls=cls, name=None, params=params)], seq='bare', dyn=dyn or rnd.choice(['sto', 'syn']), nodes=nodes,
                 edges=edges, maxT=maxT or rnd.choice([3.0, 6.0, 12.0]), seed=rnd.random(), specials=ps, pspecial=0.15,
-                oracles=list(oracles), preattr=(rnd.randrange(1 << 30) if rnd.random() < 0.25 else None), strlabels=rnd.random() < 0.2)
+                oracles=list(oracles), preattr=(rnd.randrange(1 << 30) if rnd.random() < 0.25 else None), strlabels=rnd.random() < 0.2,
+                ptypes=rnd.choice([None, None, None, 'int', 'np']))
 
 
 def gen_varfix(rnd, dyn=None):
@@ -1112,6 +1118,8 @@ def gen_rerun(rnd, classes=None, dyn=None):
             ep.setdefault('params', {})['vp.dropedges'] = rnd.choice([1, 2])          # a generator parameter the recorded run does not supply
         hist.append(ep)
     base.update(history=hist, fixed_proto=rnd.random() < 0.5, maxevents=150)
+    if rnd.random() < 0.25:
+        base['prior_other'] = dict(maxT=rnd.choice([1.0, 2.0, base['maxT']]))
     return base
 
 
